@@ -53,9 +53,49 @@ pub fn replay_cost(input: &Value) -> (bool, String) {
     (got != want, format!("compute_unknown_condition_cost({op}) = {got}; closed form = {want}"))
 }
 
+/// PRECOMPUTED_HASHES[i] == sha256(1 ‖ canon(i)) for all 24 entries, and tree_hash on the small-atom node agrees
+pub fn tree_hash_precomputed() -> EvalResult {
+    use clvm_utils::{tree_hash, tree_hash_atom, PRECOMPUTED_HASHES};
+    let mut res = EvalResult { obligations: 0, discharged: 0, failures: vec![], samples: vec![], exhaustive: true };
+    for i in 0..PRECOMPUTED_HASHES.len() {
+        res.obligations += 1;
+        let canon = crate::t_int_encoders::canon(i as u64);
+        let mut s = chia_sha2::Sha256::new();
+        s.update([1u8]);
+        s.update(&canon);
+        let want = s.finalize();
+        let mut a = clvmr::Allocator::new();
+        let n = a.new_atom(&canon).unwrap();
+        let got_table = PRECOMPUTED_HASHES[i].to_bytes();
+        let got_fn = tree_hash(&a, n).to_bytes();
+        let got_atom = tree_hash_atom(&canon).to_bytes();
+        if got_table == want && got_fn == want && got_atom == want {
+            res.discharged += 1;
+        } else {
+            res.failures.push(json!({"id": format!("tree_hash_precomputed/i={i}"), "function": "PRECOMPUTED_HASHES",
+                "message": format!("PRECOMPUTED_HASHES[{i}] = {}, tree_hash(small atom {i}) = {}, sha256(01 ‖ canon({i})) = {}",
+                    hex::encode(got_table), hex::encode(got_fn), hex::encode(want)),
+                "clause": "PRECOMPUTED_HASHES[i] == sha256(1 ‖ canon(i))",
+                "cex": {"unit": "eval", "function": "tree_hash_precomputed", "input": {"i": i}}}));
+        }
+        if i < 3 {
+            res.samples.push(json!({"obligation": format!("PRECOMPUTED_HASHES[{i}] == sha256(01 ‖ canon({i})) == {}", hex::encode(want)), "backend": "native-eval"}));
+        }
+    }
+    res
+}
+
+pub fn replay_precomputed(input: &Value) -> (bool, String) {
+    let r = tree_hash_precomputed();
+    let i = input["i"].as_u64().unwrap_or(0);
+    let bad = r.failures.iter().any(|f| f["cex"]["input"]["i"].as_u64() == Some(i));
+    (bad, format!("PRECOMPUTED_HASHES[{i}] {}", if bad { "differs from sha256(01 ‖ canon(i))" } else { "matches" }))
+}
+
 pub fn run(task: &str) -> Option<EvalResult> {
     match task {
         "cost_table" => Some(cost_table()),
+        "tree_hash_precomputed" => Some(tree_hash_precomputed()),
         _ => None,
     }
 }
